@@ -8,7 +8,8 @@
 (* C01/C04.  cfg (on reset events) names that configuration; pcfg the one before the latest exclusion.               *)
 (*                                                                                                                  *)
 (* Events (field ev):                                                                                               *)
-(*   start      sid                                   a new session begins (state reset)                            *)
+(*   start      sid tail                              a new session begins (state reset); tail = --tail N or 0      *)
+(*   (reset / pick / cachehit / cancelled / publish also carry lo = index of the first item of the snapshot)      *)
 (*   reset      q count final sort rev cancel         coordinator is about to call Matcher.Reset (slot "reset" if    *)
 (*                                                    cancel, else "retry"; a later Set of the same slot overwrites) *)
 (*   pick       q count final sort rev saw            matcher empties the box; saw = the requests it found there     *)
@@ -26,30 +27,40 @@ Oracle == JsonDeserialize(IOEnv.TABLES)
 None == [none |-> TRUE]
 
 VARIABLES l,        \* next event
-          sid, issued, no, picked, pubs, shown, lastReset, dev, ended
-vars == <<l, sid, issued, no, picked, pubs, shown, lastReset, dev, ended>>
+          sid, issued, no, picked, pubs, shown, lastReset, dev, ended,
+          tail      \* the session's --tail N (0 = none)
+vars == <<l, sid, issued, no, picked, pubs, shown, lastReset, dev, ended, tail>>
 
-Key(s, q, n, sort, cfg) == ToString(s) \o "|" \o q \o "|" \o ToString(n) \o "|" \o (IF sort THEN "s" ELSE "u") \o "|" \o ToString(cfg)
-ReqOf(e, n) == [q |-> e.q, count |-> e.count, final |-> e.final, sort |-> e.sort, rev |-> e.rev, no |-> n, cfg |-> e.cfg, pcfg |-> e.pcfg]
-Same(r, e) == r.q = e.q /\ r.count = e.count /\ r.final = e.final /\ r.sort = e.sort /\ r.rev = e.rev
+(* a snapshot is the window of `count` items starting at item index lo (lo > 0 only under --tail) *)
+Key(s, q, lo, n, sort, cfg) == ToString(s) \o "|" \o q \o "|" \o ToString(lo) \o "|" \o ToString(n) \o "|" \o (IF sort THEN "s" ELSE "u") \o "|" \o ToString(cfg)
+ReqOf(e, n) == [q |-> e.q, lo |-> e.lo, count |-> e.count, final |-> e.final, sort |-> e.sort, rev |-> e.rev, no |-> n, cfg |-> e.cfg, pcfg |-> e.pcfg]
+Same(r, e) == r.q = e.q /\ r.lo = e.lo /\ r.count = e.count /\ r.final = e.final /\ r.sort = e.sort /\ r.rev = e.rev
 
 (* issued[k]: requests of slot k announced by the coordinator and not yet taken by the matcher, oldest first.      *)
 (* The announcement (hook) precedes the actual Set on the box, so the matcher may find only a prefix of them there. *)
 Init == /\ l = 1 /\ sid = -1 /\ issued = [retry |-> <<>>, reset |-> <<>>] /\ no = 0 /\ picked = None /\ pubs = <<>>
-        /\ shown = None /\ lastReset = None /\ dev = {} /\ ended = FALSE
+        /\ shown = None /\ lastReset = None /\ dev = {} /\ ended = FALSE /\ tail = 0
 
 Ev == TraceLog[l]
 Is(name) == l <= Len(TraceLog) /\ Ev.ev = name /\ l' = l + 1
 
 TStart == /\ Is("start")
           /\ sid' = Ev.sid /\ issued' = [retry |-> <<>>, reset |-> <<>>] /\ no' = 0 /\ picked' = None /\ pubs' = <<>>
-          /\ shown' = None /\ lastReset' = None /\ dev' = {} /\ ended' = FALSE
+          /\ shown' = None /\ lastReset' = None /\ dev' = {} /\ ended' = FALSE /\ tail' = Ev.tail
 
-TReset == /\ Is("reset")
+(* C13 / C06: a request carries a frozen window of the input: everything read so far, or its last N records under     *)
+(* --tail N; within one input generation the window only moves forward                                                *)
+Window(e) == /\ e.lo >= 0 /\ e.count >= 0
+             /\ (tail = 0 => e.lo = 0)
+             /\ (tail > 0 => e.count <= tail /\ (e.lo > 0 => e.count = tail))
+             /\ (lastReset # None /\ lastReset.rev[1] = e.rev[1] =>
+                    e.lo >= lastReset.lo /\ e.lo + e.count >= lastReset.lo + lastReset.count)
+
+TReset == /\ Is("reset") /\ Window(Ev)
           /\ no' = no + 1
           /\ issued' = [issued EXCEPT ![IF Ev.cancel THEN "reset" ELSE "retry"] = Append(@, ReqOf(Ev, no + 1))]
           /\ lastReset' = ReqOf(Ev, no + 1)
-          /\ UNCHANGED <<sid, picked, pubs, shown, dev, ended>>
+          /\ UNCHANGED <<sid, picked, pubs, shown, dev, ended, tail>>
 
 Kinds == {"retry", "reset"}
 (* candidates for "which announced request of slot k did the matcher find in the box": any one that looks like what *)
@@ -70,17 +81,17 @@ TPick == /\ Is("pick") /\ Len(Ev.saw) > 0
                     ELSE \E k \in seen : /\ Same(issued[k][idx[k]], Ev) /\ picked' = issued[k][idx[k]]
                                          /\ dev' = dev \cup {"ServeOlderSlot"}
                  /\ issued' = [k \in Kinds |-> SubSeq(issued[k], idx[k] + 1, Len(issued[k]))]
-         /\ UNCHANGED <<sid, no, pubs, shown, lastReset, ended>>
+         /\ UNCHANGED <<sid, no, pubs, shown, lastReset, ended, tail>>
 
 TCacheHit == /\ Is("cachehit") /\ picked # None /\ Same(picked, Ev)
-             /\ \E i \in 1..Len(pubs) : pubs[i].q = Ev.q /\ pubs[i].count = Ev.count /\ pubs[i].sort = Ev.sort /\ pubs[i].final = Ev.final
-                                         /\ pubs[i].rev = Ev.rev
-             /\ UNCHANGED <<sid, issued, no, picked, pubs, shown, lastReset, dev, ended>>
+             /\ \E i \in 1..Len(pubs) : pubs[i].q = Ev.q /\ pubs[i].lo = Ev.lo /\ pubs[i].count = Ev.count /\ pubs[i].sort = Ev.sort
+                                         /\ pubs[i].final = Ev.final /\ pubs[i].rev = Ev.rev
+             /\ UNCHANGED <<sid, issued, no, picked, pubs, shown, lastReset, dev, ended, tail>>
 
 (* a scan is abandoned only for a cancelling request that arrived after it was picked *)
 TCancelled == /\ Is("cancelled") /\ picked # None /\ Same(picked, Ev) /\ issued["reset"] # <<>>
               /\ picked' = None
-              /\ UNCHANGED <<sid, issued, no, pubs, shown, lastReset, dev, ended>>
+              /\ UNCHANGED <<sid, issued, no, pubs, shown, lastReset, dev, ended, tail>>
 
 (* C13/C08: the published result is the sequential filter of exactly the snapshot the request carried *)
 (* Deviation StaleChunkCache (finding F17): when the coordinator applies an exclusion or an nth change it clears the  *)
@@ -99,13 +110,14 @@ Mixed(res, key, pc) ==
     IN /\ ResSize(res) >= b[1] /\ ResSize(res) <= b[2]
        /\ (IsIds(res) /\ b[2] <= 200) => (\A i \in 1..Len(res) : res[i] \in uni) /\ (\A x \in int : \E i \in 1..Len(res) : res[i] = x)
 TPublish == /\ Is("publish") /\ picked # None /\ Same(picked, Ev)
-            /\ \/ Ev.res = Oracle[Key(sid, Ev.q, Ev.count, Ev.sort, picked.cfg)] /\ dev' = dev
-               \/ /\ Ev.res # Oracle[Key(sid, Ev.q, Ev.count, Ev.sort, picked.cfg)] /\ picked.pcfg >= 0
-                  /\ Mixed(Ev.res, Key(sid, Ev.q, Ev.count, Ev.sort, picked.cfg), picked.pcfg)
+            /\ \/ Ev.res = Oracle[Key(sid, Ev.q, Ev.lo, Ev.count, Ev.sort, picked.cfg)] /\ dev' = dev
+               \/ /\ Ev.res # Oracle[Key(sid, Ev.q, Ev.lo, Ev.count, Ev.sort, picked.cfg)] /\ picked.pcfg >= 0
+                  /\ Mixed(Ev.res, Key(sid, Ev.q, Ev.lo, Ev.count, Ev.sort, picked.cfg), picked.pcfg)
                   /\ dev' = dev \cup {"StaleChunkCache"}
-            /\ pubs' = Append(pubs, [q |-> Ev.q, count |-> Ev.count, final |-> Ev.final, sort |-> Ev.sort, rev |-> Ev.rev, res |-> Ev.res, no |-> picked.no])
+            /\ pubs' = Append(pubs, [q |-> Ev.q, lo |-> Ev.lo, count |-> Ev.count, final |-> Ev.final, sort |-> Ev.sort, rev |-> Ev.rev,
+                                     res |-> Ev.res, no |-> picked.no])
             /\ picked' = None
-            /\ UNCHANGED <<sid, issued, no, shown, lastReset, ended>>
+            /\ UNCHANGED <<sid, issued, no, shown, lastReset, ended, tail>>
 
 (* the terminal shows a published result - one of the last two (EvtSearchFin is a one-slot box the coordinator     *)
 (* may read just before a newer publish lands), never an older one again                                            *)
@@ -114,26 +126,26 @@ TList == /\ Is("list") /\ pubs # <<>>
                /\ pubs[i].res = Ev.res
                /\ (shown # None => pubs[i].no >= shown.no)
                /\ shown' = pubs[i]
-         /\ UNCHANGED <<sid, issued, no, picked, pubs, lastReset, dev, ended>>
+         /\ UNCHANGED <<sid, issued, no, picked, pubs, lastReset, dev, ended, tail>>
 
-TQuery == /\ Is("query") /\ UNCHANGED <<sid, issued, no, picked, pubs, shown, lastReset, dev, ended>>
+TQuery == /\ Is("query") /\ UNCHANGED <<sid, issued, no, picked, pubs, shown, lastReset, dev, ended, tail>>
 
 (* C08: at quiescence the list is the fresh filter of the current query over everything loaded *)
 (* e.wcfg: the configuration with every exclusion the USER asked for (terminal side).  If the shown list is the    *)
 (* filter under the coordinator's configuration but not under the user's, an exclusion was lost on the way: the    *)
 (* one-slot EvtSearchNew box was overwritten by the next query change before the coordinator saw it - deviation    *)
 (* LostExclusion (finding F21).                                                                                     *)
-Converged(e) == /\ shown # None /\ shown.final /\ shown.count = e.total /\ shown.sort = e.sort
-                /\ shown.res = Oracle[Key(sid, e.q, e.total, e.sort, e.wcfg)]
+Converged(e) == /\ shown # None /\ shown.final /\ shown.count = e.total /\ shown.lo = e.wlo /\ shown.sort = e.sort
+                /\ shown.res = Oracle[Key(sid, e.q, e.wlo, e.total, e.sort, e.wcfg)]
                 /\ lastReset # None /\ shown.no = lastReset.no
                 /\ e.getres = shown.res /\ e.matchCount = (IF Len(shown.res) = 2 /\ shown.res[1] < 0 THEN -shown.res[1] ELSE Len(shown.res))
 TEnd == /\ Is("end") /\ issued["retry"] = <<>> /\ issued["reset"] = <<>> /\ picked = None
         /\ \/ (dev = {} => Converged(Ev)) /\ dev' = dev
            \/ /\ dev = {} /\ ~Converged(Ev) /\ lastReset # None /\ Ev.wcfg # lastReset.cfg
-              /\ Converged([Ev EXCEPT !.wcfg = lastReset.cfg])
+              /\ Converged([Ev EXCEPT !.wcfg = lastReset.cfg, !.wlo = Ev.lo])
               /\ dev' = {"LostExclusion"}
         /\ ended' = TRUE
-        /\ UNCHANGED <<sid, issued, no, picked, pubs, shown, lastReset>>
+        /\ UNCHANGED <<sid, issued, no, picked, pubs, shown, lastReset, tail>>
 
 Next == TStart \/ TReset \/ TPick \/ TCacheHit \/ TCancelled \/ TPublish \/ TList \/ TQuery \/ TEnd
 Spec == Init /\ [][Next]_vars
